@@ -21,7 +21,10 @@
 (* or an exception crossing an activation boundary; steps taken while an   *)
 (* exception propagates through a finally block.                           *)
 (* Once per program: the exported in/out tables solve the liveness         *)
-(* equations  in = gen \cup (out \ kill) \cup closures, out = U in(succ).  *)
+(* equations  out = U in(succ),  gen \cup (out \ kill) \subseteq in         *)
+(* \subseteq gen \cup (out \ kill) \cup closures  (closures = the names a   *)
+(* reaching local function may need from outside; which of them the        *)
+(* analysis has to include is decided dynamically by the monitor).         *)
 (***************************************************************************)
 EXTENDS MiniPyMon
 VARIABLES owe, lastN, off, bad
@@ -38,7 +41,8 @@ HasSL(f, s)   == G(f).hassl[s] = 1
 EqBad(f) == LET T == G(f).leq IN
   \E i \in 1..Len(T) :
      \/ Range(T[i].out) # UNION {Range(T[j].inn) : j \in Range(T[i].succ)}
-     \/ Range(T[i].inn) # Range(T[i].gen) \cup (Range(T[i].out) \ Range(T[i].kill)) \cup Range(T[i].clos)
+     \/ ~(Range(T[i].gen) \cup (Range(T[i].out) \ Range(T[i].kill)) \subseteq Range(T[i].inn))
+     \/ ~(Range(T[i].inn) \subseteq Range(T[i].gen) \cup (Range(T[i].out) \ Range(T[i].kill)) \cup Range(T[i].clos))
 StaticReport == LET fs == {f \in 1..Len(P.fns) : EqBad(f)} IN
                 IF fs = {} THEN "" ELSE ToString(<<"fixpoint", CHOOSE f \in fs : TRUE>>)
 
